@@ -20,10 +20,10 @@ Definition coversb (s : vstat) (x : validator) : bool :=
   | _ => true
   end.
 Definition isnone {A} (x : option A) : bool := match x with None => true | Some _ => false end.
-Definition create_okb (v : vside) (a : N) : bool :=
+Definition create_okb (fx : fixes) (v : vside) (a : N) : bool :=
   match find (vals v) a with
-  | Some x => negb (v_deleted x)
-  | None => isnone (find (vtrie v) a) && negb (mem (vindex v) a) && stat_okb (stat v)
+  | Some x => if v_deleted x then f_create fx && stat_okb (stat v) else true
+  | None => isnone (find (vtrie v) a) && (f_create fx || negb (mem (vindex v) a)) && stat_okb (stat v)
   end.
 Definition update_okb (v : vside) (a : N) : bool :=
   match find (vals v) a with
@@ -32,24 +32,30 @@ Definition update_okb (v : vside) (a : N) : bool :=
   end.
 Definition get_okb (v : vside) (a : N) : bool :=
   negb (isnone (find (vals v) a)) || isnone (find (vtrie v) a).
+Definition remove_okb (v : vside) (a : N) : bool :=
+  match find (vals v) a with
+  | Some x => N.eqb (v_addr x) a && mem (vindex v) a && stat_okb (stat v) && coversb (stat v) x
+  | None => true
+  end.
 
-(* The calls for which the theorem is stated.  Excluded are
+(* The calls for which the theorem is stated ([fx] as in Model.v: true = the
+   code as it is now).  Excluded are
    - Prepare (not a state modification: it sets the transaction context and is
      called before the transaction's snapshot);
    - a zero-value AddBalance to the RIPEMD precompile (address 3): journal.go
      keeps that address dirty across a revert on purpose (touchChange);
-   - RemoveValidator and RemoveWithdrawRecords: their reverts do not restore
-     (the two findings, see the C09_refuted theorems);
-   and CreateValidator / UpdateValidator / GetValidatorByMainAddr carry the
-   side conditions of ProofsV.v (no lazy trie load in the window, the address
-   of a created validator is new, the statistics cover the updated record). *)
-Definition good_op (s : state) (o : op) : bool :=
+   - for the code before fix fe4c1ff only: RemoveValidator and
+     RemoveWithdrawRecords, whose reverts did not restore;
+   and the validator calls carry the side conditions of ProofsV.v (no lazy trie
+   load in the window, the address of a created validator is new, the statistics
+   cover the updated / removed record, removed positions are distinct). *)
+Definition good_op (fx : fixes) (s : state) (o : op) : bool :=
   match o with
   | OAddBalance a v => negb (N.eqb a ripemd && Z.eqb v 0)
   | OPrepare _ _ => false
-  | ORemoveValidator _ => false
-  | ORemoveWithdraws _ => false
-  | OCreateValidator a _ _ _ _ => create_okb (sv s) a
+  | ORemoveValidator a => f_journal fx && remove_okb (sv s) a            (* undone only since fix fe4c1ff *)
+  | ORemoveWithdraws idx => f_journal fx && negb (has_dup idx)
+  | OCreateValidator a _ _ _ _ => create_okb fx (sv s) a
   | OUpdateVal a _ _ _ _ _ => update_okb (sv s) a
   | OGetValidator a => get_okb (sv s) a
   | _ => true
@@ -59,13 +65,13 @@ Definition valid_id (id : N) (s : state) : bool := existsb (fun r => N.eqb (fst 
 
 (* [window_gen good id ops s s']: running ops from s gives s'; no call panics,
    every call satisfies [good], and the snapshot id is valid after every call *)
-Fixpoint window_gen (fx : bool) (good : state -> op -> bool) (id : N) (ops : list op) (s s' : state) : Prop :=
+Fixpoint window_gen (fx : fixes) (good : state -> op -> bool) (id : N) (ops : list op) (s s' : state) : Prop :=
   match ops with
   | [] => s' = s
   | o :: r => good s o = true /\
               exists s1 ret, step fx o s = Some (s1, ret) /\ valid_id id s1 = true /\ window_gen fx good id r s1 s'
   end.
-Definition window (fx : bool) := window_gen fx good_op.
+Definition window (fx : fixes) := window_gen fx (good_op fx).
 
 Lemma bucket_okb_ok : forall b, bucket_okb b = true -> bucket_ok b.
 Proof.
@@ -90,12 +96,13 @@ Proof.
 Qed.
 Lemma isnone_ok : forall A (x : option A), isnone x = true -> x = None.
 Proof. intros A [a|]; cbn; congruence. Qed.
-Lemma create_okb_ok : forall v a, create_okb v a = true -> create_ok v a.
+Lemma create_okb_ok : forall fx v a, create_okb fx v a = true -> create_ok fx v a.
 Proof.
-  unfold create_okb, create_ok. intros v a H. destruct (find (vals v) a).
-  - now apply negb_true_iff in H.
-  - do 2 (apply andb_true_iff in H; destruct H as [H ?]).
-    split; [now apply isnone_ok | split; [now apply negb_true_iff | now apply stat_okb_ok]].
+  unfold create_okb, create_ok. intros fx v a H. destruct (find (vals v) a) as [x|].
+  - destruct (v_deleted x); [|exact I]. apply andb_true_iff in H. destruct H. split; [assumption | now apply stat_okb_ok].
+  - apply andb_true_iff in H. destruct H as [H Hst]. apply andb_true_iff in H. destruct H as [Hn Hor].
+    split; [now apply isnone_ok | split; [|now apply stat_okb_ok]].
+    apply orb_true_iff in Hor. destruct Hor as [Hor|Hor]; [now left | right; now apply negb_true_iff].
 Qed.
 Lemma update_okb_ok : forall v a, update_okb v a = true -> update_ok v a.
 Proof.
@@ -104,6 +111,19 @@ Proof.
     do 3 (apply andb_true_iff in H; destruct H as [H ?]).
     split; [now apply N.eqb_eq | split; [assumption | split; [now apply stat_okb_ok | now apply coversb_ok]]].
   - now apply isnone_ok.
+Qed.
+Lemma remove_okb_ok : forall v a, remove_okb v a = true -> remove_ok v a.
+Proof.
+  unfold remove_okb, remove_ok. intros v a H. destruct (find (vals v) a); [|exact I].
+  do 3 (apply andb_true_iff in H; destruct H as [H ?]).
+  split; [now apply N.eqb_eq | split; [assumption | split; [now apply stat_okb_ok | now apply coversb_ok]]].
+Qed.
+Lemma has_dup_NoDup : forall l, has_dup l = false -> NoDup l.
+Proof.
+  induction l as [|x r IH]; intros H; cbn in H; constructor.
+  - apply orb_false_iff in H. destruct H as [H _]. intro Hin.
+    assert (existsb (Nat.eqb x) r = true) by (apply existsb_exists; exists x; split; [exact Hin | apply Nat.eqb_refl]). congruence.
+  - apply IH. apply orb_false_iff in H. tauto.
 Qed.
 Lemma get_okb_ok : forall v a, get_okb v a = true -> get_ok v a.
 Proof.
@@ -146,7 +166,7 @@ Qed.
 Definition wf0 (s : state) : Prop :=
   awf (sa s) /\ Forall (fun r => (fst r < next_rev s)%N) (revs s) /\ map fst (revs s) = map fst (vrevs s).
 
-Record sinv (fx : bool) (s0 : state) (s : state) : Prop := {
+Record sinv (fx : fixes) (s0 : state) (s : state) : Prop := {
   i_wf0 : wf0 s0;
   i_a : aext (sa s0) (sa s);
   i_v : vext fx (sv s0) (sv s);
@@ -236,7 +256,7 @@ Qed.
 
 (* one good call that keeps the snapshot valid preserves the invariant *)
 Lemma sinv_step : forall fx s0 s o s1 ret,
-  sinv fx s0 s -> good_op s o = true -> step fx o s = Some (s1, ret) -> valid_id (next_rev s0) s1 = true ->
+  sinv fx s0 s -> good_op fx s o = true -> step fx o s = Some (s1, ret) -> valid_id (next_rev s0) s1 = true ->
   sinv fx s0 s1.
 Proof.
   intros fx s0 s o s1 ret Hinv Hg Hs Hval.
@@ -264,15 +284,24 @@ Proof.
   - inversion Hs; subst. destruct (op_update_delegator (sa s) a tov delta dl Hw). now apply sinv_with_a.
   - (* CreateValidator *)
     destruct (create_validator (sv s) a role status stake token) as [v1 r] eqn:E. inversion Hs; subst.
-    apply sinv_with_v; auto. pose proof (op_create_validator fx (sv s) a role status stake token (create_okb_ok _ _ Hg)) as H.
+    apply sinv_with_v; auto. pose proof (op_create_validator fx (sv s) a role status stake token (create_okb_ok _ _ _ Hg)) as H.
     now rewrite E in H.
   - destruct (update_val_op (sv s) a role status stake token payload) as [v1 r] eqn:E. inversion Hs; subst.
     apply sinv_with_v; auto. pose proof (op_update_val fx (sv s) a role status stake token payload (update_okb_ok _ _ Hg)) as H.
+    now rewrite E in H.
+  - (* RemoveValidator: repaired code only *)
+    destruct (f_journal fx) eqn:Efj; [|discriminate Hg]. cbn in Hg.
+    destruct (remove_validator fx (sv s) a) as [v1 r] eqn:E. inversion Hs; subst.
+    apply sinv_with_v; auto. pose proof (op_remove_validator_fixed fx (sv s) a Efj (remove_okb_ok _ _ Hg)) as H.
     now rewrite E in H.
   - destruct (get_validator (sv s) a) as [v1 r] eqn:E. inversion Hs; subst.
     apply sinv_with_v; auto. pose proof (op_get_validator (sv s) a (get_okb_ok _ _ Hg)) as H.
     rewrite E in H. cbn in H. subst. apply vext_refl.
   - inversion Hs; subst. apply sinv_with_v; auto using op_add_withdraw.
+  - (* RemoveWithdrawRecords: repaired code only *)
+    destruct (f_journal fx) eqn:Efj; [|discriminate Hg]. cbn in Hg. apply negb_true_iff in Hg.
+    destruct (remove_withdraws fx (sv s) idx) as [v1|] eqn:E; [|discriminate]. inversion Hs; subst.
+    apply sinv_with_v; auto. eapply op_remove_withdraws_fixed; eauto using has_dup_NoDup.
   - (* Snapshot *)
     inversion Hs; subst. clear Hs.
     destruct Hinv as [H0 Ha Hv _ (R & VR & Hr & Hvr & Hm & HR & HVR) Hn].
@@ -528,7 +557,7 @@ Proof.
 Qed.
 
 (* ---- an executable form of [window_gen], for concrete witnesses ---------- *)
-Fixpoint window_run (fx : bool) (good : state -> op -> bool) (id : N) (ops : list op) (s : state) : option state :=
+Fixpoint window_run (fx : fixes) (good : state -> op -> bool) (id : N) (ops : list op) (s : state) : option state :=
   match ops with
   | [] => Some s
   | o :: r =>
@@ -550,3 +579,27 @@ Proof.
 Qed.
 
 Definition any_op (_ : state) (_ : op) : bool := true.
+
+(* ---- what is written at the end of the transaction / block is the same ---- *)
+Lemma restored_finalise : forall d s1 s2, restored s1 s2 -> restored (finalise d s1) (finalise d s2).
+Proof.
+  intros d s1 s2 (Ha & Hv & _ & _). unfold restored, finalise; cbn.
+  split; [now apply a_finalise_sim | split; [now apply v_finalise_veq | split; reflexivity]].
+Qed.
+Lemma restored_intermediate_root : forall d s1 s2, restored s1 s2 -> restored (intermediate_root d s1) (intermediate_root d s2).
+Proof.
+  intros d s1 s2 (Ha & Hv & _ & _). unfold restored, intermediate_root; cbn.
+  split; [now apply a_intermediate_root_sim | split; [now apply v_intermediate_root_veq | split; reflexivity]].
+Qed.
+
+(* the content of the three tries the roots are hashes of *)
+Theorem restored_tries : forall d s1 s2, restored s1 s2 ->
+  objs_sim (atrie (sa (intermediate_root d s1))) (atrie (sa (intermediate_root d s2))) /\
+  vtrie (sv (intermediate_root d s1)) = vtrie (sv (intermediate_root d s2)) /\
+  sv_index (sv (intermediate_root d s1)) = sv_index (sv (intermediate_root d s2)) /\
+  sv_stat (sv (intermediate_root d s1)) = sv_stat (sv (intermediate_root d s2)) /\
+  sv_queue (sv (intermediate_root d s1)) = sv_queue (sv (intermediate_root d s2)).
+Proof.
+  intros d s1 s2 H. destruct (restored_intermediate_root d _ _ H) as (Ha & Hv & _).
+  destruct Ha as (_ & _ & _ & Hat & _). destruct Hv as (_ & Hvt & _ & _ & H5 & H6 & H7 & _). auto.
+Qed.
